@@ -343,12 +343,18 @@ def _parts(max_parts, pieces, nvars):
             yield [list(p) for p in t]
 
 
+QUICK_SHARDS = 2
+
+
 def cases_render(shard, nshards):
     def gen(tier, seed):
+        n = QUICK_SHARDS if tier == "quick" else nshards  # the quick sample is small: two shards, the others are thorough-only
+        if shard >= n:
+            return
         k = 0
         for w in _cases_render(tier, seed):
             k += 1
-            if k % nshards == shard:
+            if k % n == shard:
                 yield w
     return gen
 
@@ -361,7 +367,7 @@ def _cases_render(tier, seed):
         v0, v1 = names
         values = {v0: 1, v1: "<b>"}
         def_variants = [[], [[v0, "x0"]], [[v0, "x0"], [v1, "x1"]]]
-        for parts in _parts(3, TEXT_PIECES, 2):
+        for parts in _parts(3 if thorough else 2, TEXT_PIECES, 2):
             for di, defs in enumerate(def_variants):
                 for ctx in (None, "c%x"):
                     for mod, pol in ((None, False), ("trimmed", False), (None, True), ("notrimmed", True)):
@@ -371,7 +377,7 @@ def _cases_render(tier, seed):
                         if names is NAME_SETS[1] and (len(parts) > 2 or mod):
                             continue
                         for ns, ae in modes:
-                            installs = ("callables",) if (len(parts) == 3 and not thorough) else ("callables", "null", "translations")
+                            installs = ("callables",) if (len(parts) >= 2 and not thorough) else ("callables", "null", "translations")
                             for inst in installs:
                                 yield {"names": list(names), "values": values, "defs": defs, "ctx": ctx, "modifier": mod, "policy": pol,
                                        "singular": parts, "plural": None, "pluralize_arg": None, "newstyle": ns, "autoescape": ae,
@@ -383,7 +389,7 @@ def _cases_render(tier, seed):
         def_variants = [([], None), ([[v0, "x0"]], None), ([[v0, "x0"], [v1, "x1"]], None), ([[v1, "x1"], [v0, "x0"]], v0), ([[v1, "x1"], [v0, "x0"]], None)]
         for sing in _parts(2, pieces_b, 2):
             for plur in _parts(2, pieces_b, 2):
-                if len(sing) + len(plur) > 3 and not thorough:
+                if len(sing) + len(plur) > 2 and not thorough:
                     continue
                 has_nl = any(p == ["t", "\n"] for p in sing + plur)
                 for defs, parg in def_variants:
@@ -408,7 +414,7 @@ def _cases_render(tier, seed):
                    "singular": parts, "plural": None, "pluralize_arg": None, "newstyle": ns, "autoescape": ae, "install": "callables", "babel": False}
 
 
-RENDER_BOUND = ("trans blocks of up to 3 parts (pluralized: up to 3 parts in both forms together over {a, %, <, newline}; thorough tier: 2 + 2 parts over all pieces) over the text pieces {a, %, %%, {, <, newline} and "
+RENDER_BOUND = ("quick tier: trans blocks of up to 2 parts (pluralized: 1 + 1 parts over {a, %, <, newline}); thorough tier: up to 3 parts (pluralized: 2 + 2 parts over all pieces); over the text pieces {a, %, %%, {, <, newline} and "
                 "references to up to 2 variables (named v0/v1 or num/context), variables bound in the tag / free / partly bound, "
                 "with and without a context string, pluralize with and without an argument, counts 1 and 2, trimmed / notrimmed / "
                 "policy ext.i18n.trimmed, old- and new-style gettext, autoescape on and off, identity translations installed through "
@@ -544,7 +550,8 @@ def native_tasks():
     ts = []
     nsh = 6
     for i in range(nsh):
-        ts.append(Bounded(f"C33.bounded.render[{i}]", cases_render(i, nsh), check_render, RENDER_BOUND + f" (shard {i} of {nsh})", classify_render, res_name="C33.bounded.render"))
+        ts.append(Bounded(f"C33.bounded.render[{i}]", cases_render(i, nsh), check_render, RENDER_BOUND + f" (shard {i}; {QUICK_SHARDS} shards in the quick tier, {nsh} in the thorough tier)",
+                          classify_render, thorough_only=i >= QUICK_SHARDS, res_name="C33.bounded.render"))
     ts.append(Bounded("C33.bounded.trim", cases_trim, check_trim, "all strings of length <= 6 over {a, space, newline, tab, CR, %} plus a few fixed strings with other whitespace"))
     ts.append(Bounded("C33.bounded.comment_finder", cases_comment_finder, check_comment_finder,
                       "token lists of up to 3 tokens (tagged / untagged / empty comments, line comments, data) on up to 4 lines, one or two queries"))
